@@ -1,4 +1,5 @@
 """C09 -- nsqd TCP protocol: every input gets its defined answer; limits hold (spec: NsqdTcp, NsqdTcpTrace)."""
+import hashlib
 import json
 import os
 import re
@@ -22,9 +23,13 @@ def _replay_path(ctx, name, obj):
 def _report(ctx, kind, rep):
     """Turn the harness report lists into verdicts."""
     for m in rep.get("violations") or []:
-        key = "%s %s" % (m["kind"], re.sub(r"\s+", " ", m.get("row", "")))
+        row = re.sub(r"\s+", " ", m.get("row", ""))
+        key = "%s %s" % (m["kind"], row)
+        if "| IDENTIFY obs " in row and re.search(r"zip=(snappy|deflate)", row):
+            # one defect, many table rows: SetOutputBuffer rebuilds the writer on the raw connection
+            key = "identify output_buffer_size on an upgraded connection"
         ctx.violation("%s: real nsqd broke the protocol table: [%s] %s -- %s" % (kind, m["kind"], m.get("row", ""), m["what"]),
-                      _replay_path(ctx, "%s-%s" % (kind, m["kind"]), m), key=key)
+                      _replay_path(ctx, "%s-%s-%s" % (kind, m["kind"], hashlib.md5(key.encode()).hexdigest()[:8]), m), key=key)
     for m in rep.get("drift") or []:
         ctx.drift("%s: [%s] %s -- %s" % (kind, m["kind"], m.get("row", ""), m["what"]))
     unre = rep.get("unreproduced") or []
